@@ -78,12 +78,22 @@ def numeric(rep, index):
                 total = B.norm(total)
                 rep.ob("C09.N5 appends-declared-width", inst, total.is_const() and total.c == width and not data.disturbed(),
                        "appended %r byte(s) in %d write(s), declared %d; disturbed: %r" % (total, len(app), width, data.disturbed()))
-                if enc is not None and len(app) == 1 and app[0][0] == "bytes" and len(app[0][1]) == width and isinstance(enc, list):
-                    same = all(_is_zero(Aff.of(x) - Aff.of(y)) for x, y in zip(app[0][1], enc[:width]))
-                    rep.ob("C09.N6 writes-encoding-prefix", inst, same, "appended %r vs encode_number(n)[:%d] = %r" % (app[0][1], width, enc[:width]))
+                if enc is not None:
+                    # whatever the number of writes, the bytes appended are the first `width` bytes of the encoding
+                    flat = []
+                    for seg in app:
+                        if seg[0] != "bytes":
+                            raise AnalysisError("C09: %s appends a %s segment; its bytes cannot be compared with encode_number(n)" % (meth, seg[0]))
+                        flat.extend(seg[1])
+                    if not isinstance(enc, list):
+                        raise AnalysisError("C09: encode_number(n) did not evaluate to a byte list")
+                    same = len(flat) == width and all(_is_zero(Aff.of(x) - Aff.of(y)) for x, y in zip(flat, enc[:width]))
+                    rep.count("encoding-prefix comparisons")
+                    rep.ob("C09.N6 writes-encoding-prefix", inst, same, "appended %r vs encode_number(n)[:%d] = %r" % (flat, width, enc[:width]))
         rep.ob("C09.N0 both-outcomes-reachable", "EoWriter.%s" % meth, seen_ok and seen_raise,
                "accepting path: %s, rejecting path: %s" % (seen_ok, seen_raise))
     rep.floor("numeric paths", 10)
+    rep.floor("encoding-prefix comparisons", 4)
 
 
 def raw_bytes(rep, index):
